@@ -60,14 +60,16 @@ type c08Case struct {
 	Times []int // per node: 0 = zero value, 1..3 = t1 < t2 < t3
 	Perm  []int // list order
 	K     int   // nodes to taint
+	Min   int   // min_nodes (a binding clamp when K > n - Min)
+	Annot bool  // the first listed node carries the no-delete annotation (it can still be tainted)
 }
 
 func c08Build(p c08Case) *h.Scenario {
 	g := StdGroup("g1")
-	g.Opts.MinNodes = 0
+	g.Opts.MinNodes = p.Min
 	g.Opts.FastNodeRemovalRate, g.Opts.SlowNodeRemovalRate = p.K, 0
 	return &h.Scenario{
-		Name: fmt.Sprintf("c08.t%v.p%v.k%d", p.Times, p.Perm, p.K), Groups: []h.GroupSpec{g}, Slots: 1, Quantum: Q,
+		Name: fmt.Sprintf("c08.t%v.p%v.k%d.m%d.a%v", p.Times, p.Perm, p.K, p.Min, p.Annot), Groups: []h.GroupSpec{g}, Slots: 1, Quantum: Q,
 		FaultOps:         map[string]bool{sim.OpK8sGet: true, sim.OpK8sUpdate: true},
 		MaxEventsPerSlot: 1,
 		Events: func(hh *h.Hist, slot int) []h.Event {
@@ -79,9 +81,12 @@ func c08Build(p c08Case) *h.Scenario {
 		},
 		Init: func(hh *h.Hist) {
 			a := InitASGs(hh)[0]
-			for _, i := range p.Perm {
+			for pos, i := range p.Perm {
 				tv := p.Times[i]
 				o := sim.NodeOpt{Age: time.Duration(40-10*tv) * Q}
+				if p.Annot && pos == 0 {
+					o.Annotation = "keep"
+				}
 				if tv == 0 {
 					o.ZeroCreated = true
 				}
@@ -159,7 +164,18 @@ func C08Scenarios(tier string) []*h.Scenario {
 			}
 			for _, pm := range perms(n) {
 				for k := 0; k <= n; k++ {
-					out = append(out, c08Build(c08Case{times, pm, k}))
+					out = append(out, c08Build(c08Case{Times: times, Perm: pm, K: k}))
+					if k == 0 {
+						continue
+					}
+					if n <= 3 || tier == "thorough" {
+						out = append(out, c08Build(c08Case{Times: times, Perm: pm, K: k, Min: 1}), c08Build(c08Case{Times: times, Perm: pm, K: k, Annot: true}))
+						if n >= 3 {
+							out = append(out, c08Build(c08Case{Times: times, Perm: pm, K: k, Min: 2, Annot: true}))
+						}
+					} else if k >= 2 {
+						out = append(out, c08Build(c08Case{Times: times, Perm: pm, K: k, Min: 1, Annot: true}))
+					}
 				}
 			}
 		}
@@ -171,7 +187,7 @@ func init() {
 	register(&Check{
 		ID:    "C08",
 		Level: "model_checking",
-		Rule: "every assignment of creation times from {zero value, t1, t2, t3} to 1..4 (5 thorough) untainted nodes x every list order x every taint count 0..n, each explored with no fault, with a failure at every single get / update position of the taint loop, and with the API rejecting every call on one node; six-scan histories (one taint per scan) with a node rejected for up to three whole scans; " +
+		Rule: "every assignment of creation times from {zero value, t1, t2, t3} to 1..4 (5 thorough) untainted nodes x every list order x every taint count 0..n x min_nodes 0..2 (a binding clamp) x the first listed node carrying the no-delete annotation or not, each explored with no fault, with a failure at every single get / update position of the taint loop, and with the API rejecting every call on one node; six-scan histories (one taint per scan) with a node rejected for up to three whole scans; " +
 			"non-trivial = scans that tainted at least one node; distinct = (times, order, count, fault position) outcome traces",
 		Scenarios:       C08Scenarios,
 		ShardByScenario: true,
